@@ -39,18 +39,18 @@ def all_skeletons(tier):
     return out
 
 
+NT = 64
+
+
 def tasks(tier):
-    sk = all_skeletons(tier)
-    n = len(sk)
-    chunk = max(4, n // 64 + 1)
-    return [{"tier": tier, "lo": lo, "hi": min(n, lo + chunk)} for lo in range(0, n, chunk)]
+    return [{"tier": tier, "stride": i} for i in range(NT)]
 
 
 def run_task(task, kf):
     from ..sym import loader
     out = []
     first = True
-    for typ, src, origin in all_skeletons(task["tier"])[task["lo"]:task["hi"]]:
+    for typ, src, origin in all_skeletons(task["tier"])[task["stride"]::NT]:
         h = harness(typ, src, origin, 120 if task["tier"] == "quick" else 300)
         out.append(explore.explore(h, kf, profile_root=loader.SRC if first else None))
         first = False
